@@ -43,8 +43,9 @@ def main():
         for tag, e in (("quick", q), ("thorough", t)):
             if e:
                 cov = e["coverage"]
-                print("| %s | *total %s* | | %s | | distinct non-trivial %s, regression replays %s, wall %ss |" % (
-                    pid, tag, cov.get("cases_generated", cov.get("evaluations", "")),
+                n = cov.get("cases_generated", cov.get("evaluations", ""))
+                print("| %s | *total %s* | | %s | %s | distinct non-trivial %s, regression replays %s, wall %ss |" % (
+                    pid, tag, n if tag == "quick" else "", n if tag == "thorough" else "",
                     cov.get("nontrivial_cases", cov.get("distinct_nontrivial", "")),
                     cov.get("regression_replays", ""), e.get("wall_s")))
 
